@@ -13,36 +13,36 @@ def check(run):
     p = run.prog
     I = interp(p)
     flags = p.const('tdda.rexpy.rexpy', 'RE_FLAGS')
-    anchor(run, p)
-    tag(run, p)
-    tagfree(run, p)
-    quant(run, p, I, flags)
-    esc(run, p)
+    run.attempt(anchor, run, p)
+    run.attempt(tag, run, p)
+    run.attempt(tagfree, run, p)
+    run.attempt(quant, run, p, I, flags)
+    run.attempt(esc, run, p)
     run.rules['C13-ESC'] = run.rules.pop('C03-ESC')
     for o in run.obs:
         if o.rule == 'C03-ESC':
             o.rule = 'C13-ESC'
     run.floors = [(('C13-ESC' if r == 'C03-ESC' else r), c, m) for r, c, m in run.floors]
-    bracket(run, p, I, flags, 'C13')
+    run.attempt(bracket, run, p, I, flags, 'C13')
     from .. import ief, triage
-    ief.run_ief(run, 'C13', [p.fn(RX + 'extract'), p.fn(RX + 'pdextract'), p.method('Extractor', '__init__')], triage=triage.IEF, selfattr=True)
-    run.floor('C13-IEF', run.units['ief_functions_checked'], 60)
-    klass(run, p, I, flags)
+    run.attempt(ief.run_ief, run, 'C13', [p.fn(RX + 'extract'), p.fn(RX + 'pdextract'), p.method('Extractor', '__init__')], triage=triage.IEF, selfattr=True)
+    run.floor('C13-IEF', run.units.get('ief_functions_checked', 0), 60)
+    run.attempt(klass, run, p, I, flags)
     run.rules['C13-CLASS'] = run.rules.pop('C03-CLASS') + ' (an expression built from a class that does not contain its characters matches none of its examples)'
     for o in run.obs:
         if o.rule == 'C03-CLASS':
             o.rule = 'C13-CLASS'
     run.floors = [(('C13-CLASS' if r == 'C03-CLASS' else r), c, m) for r, c, m in run.floors]
     from .c03 import discard, wspad, catsync
-    wspad(run, p, 'C13-WSPAD')
+    run.attempt(wspad, run, p, 'C13-WSPAD')
     before = len(run.obs)
-    catsync(run, p)
+    run.attempt(catsync, run, p)
     run.rules['C13-CATSYNC'] = run.rules.pop('C03-CATSYNC') + ' (an output class thinned against a different example list than the internal one renders an expression that matches none of the examples)'
     for o in run.obs[before:]:
         if o.rule == 'C03-CATSYNC':
             o.rule = 'C13-CATSYNC'
     run.floors = [(('C13-CATSYNC' if r == 'C03-CATSYNC' else r), c, m) for r, c, m in run.floors]
-    discard(run, p, 'C13-STRIPCOUNT')
+    run.attempt(discard, run, p, 'C13-STRIPCOUNT')
     run.rules['C13-STRIPCOUNT'] += ' (the stripped-examples counter decides whether the expressions get their \\s* wrappers: a blank example counted wrongly leaves an expression that matches none of the examples as given)'
     from .common import observed_rule
     n = observed_rule(run, 'C13-OBSERVED', p, [f for f in p.funcs.values() if f.mod.name == 'tdda.rexpy.rexpy' and f.cls is None],
